@@ -49,7 +49,7 @@ def scenarios(prop, quick, seed):
         base = {"writers": 2 + j % 3, "ops": 3 + j % 4, "keys": 1 + j % 3, "wt": [], "setmax": [], "syncexec": 0,
                 "policy": pol, "seed": seed * 100000 + j, "points": "pub" if j % 5 else "all", "expiry": (j // 2) % 2,
                 "invall": [0, 0, 1, 0, 0, 2][j % 6], "reads": (j // 3) % 2, "stale": 1 if (j // 4) % 3 == 0 else 0,
-                "smallbuf": 1 if (j // 5) % (2 if prop == "C04" else 4) == 1 else 0}
+                "smallbuf": 1 if (j // 5) % (2 if prop == "C04" else 4) == 1 else 0, "hwrite": 0}
         if prop == "C16":
             # (with an InvalidateAll in half of them: it replays the buffered events itself before it discards the entries)
             sc = dict(base, size=["count", "weight", "count"][j % 3], max=2 + j % 4, wt=[1, 0, 2, 1, 3], smallbuf=1, stale=0, invall=[0, 1, 0, 2][j % 4])
@@ -60,6 +60,9 @@ def scenarios(prop, quick, seed):
             if j % 2 == 0:
                 # one producer on one key with a same-goroutine executor: the order of its events is observable (C16.producer_order)
                 sc.update(writers=1, keys=1, syncexec=1, ops=14 + j % 5, policy="free", size="count", max=3, reads=0, oneprod=1)
+                if j % 4 == 2:
+                    # ... and the deletion handler writes once from inside a maintenance run; then a long write-only phase over many keys
+                    sc.update(hwrite=1, keys=8, ops=60 + j % 7, max=3, smallbuf=0)
         elif prop == "C14":
             # overflow fallback: a write buffer of 8 events, a foreign holder of the eviction mutex while the writers fill it, more distinct
             # keys than the maximum (the writer that runs the maintenance itself hands it its own event)
